@@ -818,7 +818,7 @@ def run(ctx: common.Ctx) -> None:
         n5_step, n6_build, n6_direct = 1, sc(3000), sc(300000)
         n_combo = sc(2500)
         build_cfgs = [((3, 10 + i), G.PLATFORMS[i % 5], native) for i in range(6) for native in (False, True)]
-        n_fold_rand, mypyc_every = sc(9000), 3
+        n_fold_rand, mypyc_every = sc(9000), 1
     else:
         call_exh, n_call_rand, n_corpus = [(4, 2), (3, 3)], sc(450000), sc(2500)
         n5_step, n6_build, n6_direct = 1, sc(100000), None
@@ -901,26 +901,26 @@ def run(ctx: common.Ctx) -> None:
     ctx.extra["exhaustive_subspaces"] = ex
     ctx.exhaustive = False
     summary = {}
-    floors = ({"call": (8000, 3000), "mro": (9000, 2500), "reach": (60000, 60000), "fold": (3000, 1500)} if quick else
-              {"call": (60000, 30000), "mro": (100000, 30000), "reach": (100000, 100000), "fold": (20000, 10000)})
+    # (agreeing accepts, agreeing rejects) the unchanged tree yields; a sub-monitor below 40 % of either is inconclusive
+    floors = ({"call": (13800, 61000), "mro": (130000, 97000), "reach": (114000, 115000), "fold": (22900, 26500)} if quick else
+              {"call": (150000, 900000), "mro": (1500000, 2000000), "reach": (600000, 600000), "fold": (60000, 70000)})
     for s in SUBS:
         d = sub.n[s]
         summary[s] = {"evaluations": d["evaluations"], "both_accept": d["both_accept"], "both_reject": d["both_reject"],
                       "distinct_nontrivial": len(d["nontrivial"]), "violations": d["violations"]}
         if s not in only:
             continue
-        fa, fr = (int(x * min(scale, 1.0) * 0.5) for x in floors[s])
+        fa, fr = (int(x * min(scale, 1.0) * 0.4) for x in floors[s])
         if d["both_accept"] < max(1, fa) or d["both_reject"] < max(1, fr):
             ctx.inconc(f"{s}: sub-monitor below its floor (accepting {d['both_accept']}/{fa}, rejecting {d['both_reject']}/{fr})")
             ctx.floor_nontrivial = 10 ** 9
     ctx.extra["sub_monitors"] = summary
     if only != set(SUBS):
         ctx.assumptions.append(f"PARTIAL RUN: only sub-monitors {sorted(only)} (VERIF_C12_ONLY)")
-    tot_floor = {"quick": (150000, 600000), "thorough": (800000, 2500000)}[ctx.tier]
+    tot_floor = {"quick": (358000, 1022000), "thorough": (3000000, 8000000)}[ctx.tier]
     if ctx.floor_nontrivial < 10 ** 9:
-        frac = sum(1 for s in SUBS if s in only) / len(SUBS)
-        ctx.floor_nontrivial = int(tot_floor[0] * min(scale, 1.0) * frac * 0.5) if only == set(SUBS) else 1
-        ctx.floor_evaluations = int(tot_floor[1] * min(scale, 1.0) * 0.5) if only == set(SUBS) else 1
+        ctx.floor_nontrivial = int(tot_floor[0] * min(scale, 1.0) * 0.4) if only == set(SUBS) else 1
+        ctx.floor_evaluations = int(tot_floor[1] * min(scale, 1.0) * 0.4) if only == set(SUBS) else 1
 
 
 def dispatch(sub: Sub, t: dict[str, Any], r: dict[str, Any], combo_info: dict[str, Any], pending_fold: list[dict[str, Any]]) -> None:
